@@ -269,13 +269,13 @@ def r6_children_index(P, rep, ctx):
               message=f"node-level query computes its start node as {d}: an explicitly requested start node is ignored and results come from the wrong subtree")
 
 
-def r5_fresh_view(P, rep, ctx):
+def r5_fresh_view(P, rep, ctx, rule="C07.R5"):
     fi = P.func("container.wrappers.MetadorNode.meta")
     rets = [norm(x.value) for x in walk_local(fi.node) if isinstance(x, ast.Return)]
     stores = [st for st in walk_local(fi.node) if isinstance(st, ast.stmt) for k, t in store_targets(st) if norm(t).startswith("self.")]
-    rep.check(rets == ["MetadorMeta(self)"] and not stores, "C07.R5", fi.qual, "node.meta builds a fresh view of the stored metadata on every access", fi.loc(), construct=f"meta returns {rets}",
+    rep.check(rets == ["MetadorMeta(self)"] and not stores, rule, fi.qual, "node.meta builds a fresh view of the stored metadata on every access", fi.loc(), construct=f"meta returns {rets}",
               message=f"node.meta does not construct a fresh MetadorMeta(self) per access ({rets}{', caches in ' + norm(stores[0]) if stores else ''}): a kept node handle does not see objects attached/deleted through another handle and accepts a second object per schema")
     init = P.func(f"{MM}.__init__")
     t = norm(init.node)
-    rep.check("self._mc.__wrapped__.get(self._base_dir, {})" in t and "StoredMetadata.from_node(obj_node)" in t and "self._objs[obj.schema.name] = obj" in t, "C07.R5", init.qual, "the view's index is loaded from the node's metadata group", init.loc(), construct="MetadorMeta.__init__ load",
+    rep.check("self._mc.__wrapped__.get(self._base_dir, {})" in t and "StoredMetadata.from_node(obj_node)" in t and "self._objs[obj.schema.name] = obj" in t, rule, init.qual, "the view's index is loaded from the node's metadata group", init.loc(), construct="MetadorMeta.__init__ load",
               message="MetadorMeta.__init__ does not load the stored objects of the node's metadata group into _objs (keyed by schema name)")
